@@ -277,6 +277,19 @@ def m_ref_deref(ex, c, args, m):
 @M.add(r'^<Box<.*> as (std::ops::)?Deref(Mut)?>::deref(_mut)?$|^<Box<.*> as (AsRef|AsMut|Borrow)<.*>>::')
 def m_box_deref(ex, c, args, m):
     b = deref(args[0]); return Ref(b.c, b.k)
+# ---- Rc / Arc / RefCell: shared cells (a BoxRef is shared by reference: cp() does not copy it); no borrow tracking
+@M.add(r'^<(Rc|Arc|std::rc::Rc|std::sync::Arc)<.*> as Default>::default$')
+def m_rc_default(ex, c, args, m):
+    inner = HM() if 'HashMap' in c else HS() if 'HashSet' in c else VecVal([]) if 'Vec<' in c else None
+    if inner is None: raise Unsupported('default of ' + c)
+    return boxed(inner)      # RefCell is transparent (see m_refcell)
+@M.add(r'^(std::rc::|std::sync::)?(Rc|Arc)::<.*>::new$')
+def m_rc_new(ex, c, args, m): return boxed(args[0])
+@M.add(r'^<(std::rc::|std::sync::)?(Rc|Arc)<.*> as Clone>::clone$')
+def m_rc_clone(ex, c, args, m): return deref(args[0])
+@M.add(r'^<(std::rc::|std::sync::)?(Rc|Arc)<.*> as (std::ops::)?Deref>::deref$|^<(std::rc::|std::sync::)?(Rc|Arc)<.*> as (AsRef|Borrow)<.*>>::')
+def m_rc_deref(ex, c, args, m):
+    b = deref(args[0]); return Ref(b.c, b.k)
 @M.add(r'^Box::<.*>::new$|^Box::<.*>::pin$')
 def m_box_new(ex, c, args, m): return boxed(args[0])
 @M.add(r'^Box::<\[.*\]>::new_uninit$|^Box::<.*>::new_uninit$')
